@@ -111,11 +111,6 @@ fn run_one(cfg: &Cfg, r: &mut Report, stage: &str, idx: u64, dir: &std::path::Pa
         return;
     }
     let rp = || if bytes.len() <= 1 << 20 { crate::util::replay_ref(cfg, stage, idx).set("binary", hex_bytes(bytes)).set("label", label.to_string()) } else { crate::util::replay_ref(cfg, stage, idx).set("label", label.to_string()).set("input_bytes", bytes.len()) };
-    // in-process expectation
-    let expected: Result<(String, bool), crate::util::Panic> = catch(|| match rspirv::dr::load_bytes(bytes) {
-        Ok(m) => (m.disassemble(), true),
-        Err(e) => (format!("{}", e), false),
-    });
     let out = if under_valgrind {
         Command::new("valgrind").args(["--quiet", "--error-exitcode=99", "--leak-check=no"]).arg(bin).arg(&path).output()
     } else {
@@ -152,6 +147,28 @@ fn run_one(cfg: &Cfg, r: &mut Report, stage: &str, idx: u64, dir: &std::path::Pa
         return;
     }
     let stdout = String::from_utf8_lossy(&out.stdout).to_string();
+    // in-process expectation - computed only after the tool itself survived the input, and on a thread with a
+    // stack eight times the tool's, so that an input which exhausts the tool's stack cannot take the monitor
+    // down with it
+    let owned: Vec<u8> = bytes.to_vec();
+    let expected: Result<(String, bool), crate::util::Panic> = match std::thread::Builder::new().stack_size(64 << 20).spawn(move || {
+        catch(|| match rspirv::dr::load_bytes(&owned) {
+            Ok(m) => (m.disassemble(), true),
+            Err(e) => (format!("{}", e), false),
+        })
+    }) {
+        Ok(h) => match h.join() {
+            Ok(x) => x,
+            Err(_) => {
+                r.inconclusive.push("expectation thread failed".into());
+                return;
+            }
+        },
+        Err(_) => {
+            r.inconclusive.push("cannot spawn expectation thread".into());
+            return;
+        }
+    };
     match expected {
         Err(p) => {
             fail(r, "library-panics", format!("the library panics on this input in-process ({}), the binary exited 0", p.msg));
